@@ -34,6 +34,16 @@ func (t *stackTarget) line(caseID int, op string, a []int, vs []int) callResult 
 			src := append([]int{}, vs...)
 			if len(vs)%2 == 0 {
 				t.s = class.MakeFromArray(src)
+			} else if len(vs)%4 == 3 {
+				// the source is itself a stack (of a larger capacity): the new stack must own its storage
+				other := class.MakeWithCapacity(uint(len(src) + 3))
+				for i := len(src) - 1; i >= 0; i-- {
+					other.AddValue(src[i])
+				}
+				t.s = class.MakeFromSequence(other)
+				other.AddValue(-95)
+				other.AddValue(-94)
+				other.RemoveTop()
 			} else {
 				// the source sequence is changed afterwards: the stack must own its storage
 				l := col.List[int](notation).MakeFromArray(src)
